@@ -16,17 +16,18 @@ pub const fn u8_lower_upper(n: u8) -> (u8, u8) { (n & 15, n >> 4) }
 /// [PacketSend] errors, returning the first success, other Error, or after
 /// `retry_count+1` tries the last [PacketReceive] or [PacketSend] error.
 pub fn retry_on_timeout<T>(mut retry_count: usize, mut fetch: impl FnMut() -> GDResult<T>) -> GDResult<T> {
-    let mut last_err = PacketReceive.context("Retry count was 0");
-    retry_count += 1;
-    while retry_count > 0 {
-        last_err = match fetch() {
+    loop {
+        let last_err = match fetch() {
             Ok(r) => return Ok(r),
             Err(e) if e.kind == PacketReceive || e.kind == PacketSend => e,
             Err(e) => return Err(e),
         };
+        // counting the retries down (instead of retry_count + 1 attempts) cannot overflow
+        if retry_count == 0 {
+            return Err(last_err);
+        }
         retry_count -= 1;
     }
-    Err(last_err)
 }
 
 /// Run gather_fn based on the value of gather_toggle.
